@@ -30,6 +30,9 @@ pub struct AofEngine {
     /// Is background rewrite in progress?
     rewrite_in_progress: Arc<Mutex<bool>>,
     
+    /// Entries of the command being executed, held back until it is over (`begin_command` / `end_command`)
+    held: Arc<Mutex<Option<Vec<(usize, Vec<RespFrame>)>>>>,
+    
     /// Database a reader of the file has selected after the entries written so far
     /// (`None`: unknown, the file was inherited from an earlier run)
     last_db: Arc<Mutex<Option<usize>>>,
@@ -94,6 +97,7 @@ impl AofEngine {
             last_fsync: Arc::new(Mutex::new(Instant::now())),
             rewrite_in_progress: Arc::new(Mutex::new(false)),
             last_db: Arc::new(Mutex::new(None)),
+            held: Arc::new(Mutex::new(None)),
         }
     }
     
@@ -152,9 +156,43 @@ impl AofEngine {
         Ok(())
     }
     
-    /// Append a command that ran in database `db`. Entries carry no database, so a `SELECT db` entry is written
-    /// first whenever the previous entry ran in another database.
+    /// A command starts: from now on its entries (its own text, the pops it makes for blocked clients, ...) are held
+    /// back, so that what turns out to have happened first - keys that expire while it runs - can be written ahead
+    pub fn begin_command(&self) -> Result<()> {
+        // a command that left by an early return never called end_command: write what it held
+        self.end_command(&[])?;
+        *self.held.lock().unwrap() = Some(Vec::new());
+        Ok(())
+    }
+    
+    /// The command is over: write `first` (e.g. `DEL key` for the keys that expired), then the entries it held back,
+    /// in order. The whole batch is in the file before the command is answered.
+    pub fn end_command(&self, first: &[(usize, Vec<RespFrame>)]) -> Result<()> {
+        let held = self.held.lock().unwrap().take().unwrap_or_default();
+        for (db, entry) in first.iter().chain(held.iter()) {
+            self.write_command_in_db(*db, entry)?;
+        }
+        Ok(())
+    }
+    
+    /// Append a command that ran in database `db` (held back while a command is being executed, see `begin_command`)
     pub fn append_command_in_db(&self, db: usize, command: &[RespFrame]) -> Result<()> {
+        if !self.config.enabled {
+            return Ok(());
+        }
+        {
+            let mut held = self.held.lock().unwrap();
+            if let Some(entries) = held.as_mut() {
+                entries.push((db, command.to_vec()));
+                return Ok(());
+            }
+        }
+        self.write_command_in_db(db, command)
+    }
+    
+    /// Write a command that ran in database `db`. Entries carry no database, so a `SELECT db` entry is written
+    /// first whenever the previous entry ran in another database.
+    fn write_command_in_db(&self, db: usize, command: &[RespFrame]) -> Result<()> {
         if !self.config.enabled {
             return Ok(());
         }
@@ -286,6 +324,7 @@ impl Clone for AofEngine {
             last_fsync: Arc::clone(&self.last_fsync),
             rewrite_in_progress: Arc::clone(&self.rewrite_in_progress),
             last_db: Arc::clone(&self.last_db),
+            held: Arc::clone(&self.held),
         }
     }
 }
